@@ -25,9 +25,8 @@ LEVEL_TEXT = ('Theorems in coq/theories/Properties/C03.v for every commutative r
               'The executable models are extracted and compared with lentil on every run; the direct oracle compares the '
               'segmented with the monolithic run of the implementation.')
 LEVEL_NOTE = ('Trusted: Coq kernel, extraction, harness, numpy (slicing, BLAS dot, np.exp, np.sqrt; tolerance 1e-9). The '
-              'propagation part rests on the C02 model/theorems (Model/Propagate.v, Proofs/PropagateP.v). Known findings: a '
-              'segment or an intermediate field that is a single sample (one-element array) is treated as an infinite constant; '
-              'a one-layer mask cube is refused.')
+              'propagation part rests on the C02 model/theorems (Model/Propagate.v, Proofs/PropagateP.v). Describes the code after the '
+              'fix: commits for C03-one-element-array-field and C03-one-layer-cube (single-sample segments, one-layer cubes).')
 TRUSTED = ['Coq 8.16.1 kernel (coqc; coqchk in the thorough tier)',
            'extraction with ExtrOcamlBasic only; ocaml/driver.ml',
            'harness/props/c03.py, c07.py: codec, evaluation of group-ring elements at exp(-2 pi i/L), np.sqrt of the unitary factor',
@@ -35,7 +34,7 @@ TRUSTED = ['Coq 8.16.1 kernel (coqc; coqchk in the thorough tier)',
            'Model/Propagate.v + Proofs/PropagateP.v (property C02) for the propagation step',
            'parametricity: the theorem instance (any ring) and the executed instance (group ring) are the same Gallina term']
 ASSUMPTIONS = ['theorems: untilted fields (the tilted-chip cases are tied and decided by the oracle only)',
-               'segment masks pairwise disjoint, every segment and every intermediate field has more than one sample (else: known finding)',
+               'segment masks pairwise disjoint (segments may be single samples; a cube may have one layer)',
                'pupil planes; angular tilt only as integer chip shifts; wavelength, focal length, pixel scales dyadic; alpha = p/q, OPD = k*lambda/Lo, lcm <= 64',
                'comparison tolerance 1e-9*(1+max|expected|)']
 RULE = ('random supports <= 7x7 (quick) / 10x10 (thorough), random labelling into 1..4 segments (bounding boxes overlap), chains of '
@@ -142,7 +141,7 @@ def call_shapes(c):
 DYAD = ['1/4', '1/2', '1', '1/8', '3/4']
 
 
-def rnd_labels(rng, n, m, k, allow_small):
+def rnd_labels(rng, n, m, k, allow_small=True):
     for _ in range(200):
         fill = rng.choice([0.5, 0.75, 0.95])
         sup = [[rng.random() < fill for _ in range(m)] for _ in range(n)]
@@ -176,14 +175,14 @@ def rnd_call(rng, wshape, maxs):
     return {'du': du, 'shape': shape, 'prop_shape': prop, 'os': os}
 
 
-def rnd_seg(rng, maxn, maxs, allow):
+def rnd_seg(rng, maxn, maxs):
     Lo = rng.choice([1, 1, 2, 3, 4, 6, 8])
     n, m = rng.randint(2, maxn), rng.randint(2, maxn)
     nplanes = rng.choice([1, 1, 2, 2, 3])
     planes = []
     for _ in range(nplanes):
-        k = rng.choice([1, 2, 2, 3, 3, 4]) if allow else rng.choice([2, 2, 3, 3, 4])
-        lab = rnd_labels(rng, n, m, k, allow)
+        k = rng.choice([1, 2, 2, 3, 3, 4])          # k = 1: the partition into one segment, as a one-layer cube
+        lab = rnd_labels(rng, n, m, k)
         if lab is None:
             return None
         if rng.random() < 0.6:
@@ -234,7 +233,7 @@ def rnd_tseg(rng, maxn):
     last in half of the cases, anywhere otherwise"""
     n, m = rng.randint(3, maxn), rng.randint(3, maxn)
     k = rng.choice([3, 3, 4])
-    lab = rnd_labels(rng, n, m, k, False)
+    lab = rnd_labels(rng, n, m, k)
     if lab is None:
         return None
     os = rng.choice([1, 2])
@@ -292,13 +291,11 @@ def chip_kind(c):
     return 'plain'
 
 
-def special(c):
-    """finding classes (box arithmetic of c07.chain_boxes on both descriptions)"""
-    if c['op'] != 'seg':
-        return {}
-    a = P7.chain_boxes(p7_case(c, True))
-    b = P7.chain_boxes(p7_case(c, False))
-    return {'one_element': a['one_element'] or b['one_element'], 'one_layer_cube': a['one_layer_cube']}
+def single_sample(c):
+    """statistic: does a segment or an intermediate field consist of a single sample?"""
+    if c['op'] not in ('seg', 'tseg'):
+        return False
+    return P7.chain_boxes(p7_case(c, True))['single_sample'] or P7.chain_boxes(p7_case(c, False))['single_sample']
 
 
 def generate(rng, tier):
@@ -307,21 +304,15 @@ def generate(rng, tier):
     maxn = 6 if quick else 10
     maxs = 5 if quick else 7
     Lmax = 48 if quick else 64
-    out = tries = n_find = 0
+    out = tries = 0
     while out < n_seg and tries < 100000:
         tries += 1
-        allow = rng.random() < 0.06
-        c = rnd_seg(rng, maxn, maxs, allow)
+        c = rnd_seg(rng, maxn, maxs)
         if c is None:
             continue
         ar, ac, ok = alphas(c)
         if not ok or case_L(c) > Lmax or abs(ar) > 2 or abs(ac) > 2:
             continue
-        sp = special(c)
-        if sp['one_element'] or sp['one_layer_cube']:
-            if not allow or n_find >= 0.05 * n_seg:
-                continue
-            n_find += 1
         out += 1
         yield c
     out = tries = 0
@@ -333,8 +324,6 @@ def generate(rng, tier):
             continue
         ar, ac, ok = alphas(c)
         if not ok or case_L(c) > Lmax or abs(ar) > 2 or abs(ac) > 2:
-            continue
-        if P7.chain_boxes(p7_case(c, True))['one_element']:
             continue
         out += 1
         yield c
@@ -353,7 +342,8 @@ def classify(c):
         return 'crop'
     if c['op'] == 'tseg':
         return 'tseg/' + chip_kind(c)
-    return 'seg/' + '-'.join(str(pl['k']) for pl in c['planes']) + ('/opd' if c['Lo'] > 1 else '')
+    return ('seg/' + '-'.join(str(pl['k']) for pl in c['planes']) + ('/opd' if c['Lo'] > 1 else '')
+            + ('/1px' if single_sample(c) else ''))
 
 
 def nontrivial(c):
@@ -619,33 +609,3 @@ def oracle(c, impl):
         if m:
             return m
     return None
-
-
-# ------------------------------------------------------------------ known findings
-def known_match(f, c, impl):
-    if c.get('op') != 'seg':
-        return False
-    sp = special(c)
-    if f['id'].endswith('one-element-array-field'):
-        return sp['one_element']
-    if f['id'].endswith('one-layer-cube'):
-        return sp['one_layer_cube']
-    return False
-
-
-def replay_known(f):
-    lentil = C.import_lentil()
-    if f['id'].endswith('one-layer-cube'):
-        m = np.zeros((1, 4, 4)); m[0, 1:3, 0:3] = 1
-        try:
-            lentil.Wavefront(1e-6) * lentil.Pupil(amplitude=np.ones((4, 4)), mask=m, pixelscale=1, focal_length=1)
-        except ValueError:
-            return True
-        return False
-    if f['id'].endswith('one-element-array-field'):
-        m = np.zeros((2, 5, 5)); m[0, 1:4, 1:3] = 1; m[1, 3, 4] = 1
-        amp = np.ones((5, 5))
-        ws = lentil.Wavefront(1e-6) * lentil.Pupil(amplitude=amp, mask=m, focal_length=1, pixelscale=1)
-        wm = lentil.Wavefront(1e-6) * lentil.Pupil(amplitude=amp, mask=m.sum(0), focal_length=1, pixelscale=1)
-        return not np.array_equal(ws.field, wm.field)
-    return False
